@@ -1,14 +1,13 @@
-\* C25 exhaustive: 2 goroutines x 2 calls across acquire / release / queries (LSQ, tx-monitor)
+\* C25 reply form, simulation: 3 goroutines x 2 calls, opaque replies among acquire / release / queries, both kinds of client (-simulate)
 CONSTANTS
-  G = 2
+  G = 3
   N = 2
-  Ops = {"acq1", "rel", "qa", "qb"}
+  Ops = {"acq1", "rel", "qa", "qx"}
   Mutex = TRUE
   AutoAcquire = TRUE
   RelRule = TRUE
-  Hist = FALSE
-  OnOpaque = {"raw"}
+  Hist = TRUE
+  OnOpaque = {"raw", "fail"}
   DupOpaque = FALSE
 SPECIFICATION Spec
 INVARIANTS TypeOK OwnAnswer MutexExcl QueryInSession OutShape RelLegal ErrOnlyWhenDead ErrSuffix OpaqueOutcome EmitRow
-PROPERTIES Termination
